@@ -1,6 +1,7 @@
 import GrmVerif.Model.Canon
 import GrmVerif.Model.CertVP
 import GrmVerif.Drive.C01
+import GrmVerif.Drive.Pager
 /-!
 Driver for C02. Request as for C01 (`<grammar> <automaton> ninputs (len tok…)* ninputs×accepted`).
 The canonical LR(1) automaton is constructed (unmerged) and used only if the verified validators
@@ -18,7 +19,7 @@ def outcomeNoState : Outcome → String
   | .crash n => s!"crash {n}"
   | .fuelOut => "div"
 
-def handle (args : List Nat) : String :=
+def handleCert (args : List Nat) : String :=
   match C01.parseReq args with
   | none => "bad-request"
   | some P =>
@@ -54,5 +55,28 @@ def handle (args : List Nat) : String :=
               [s!"C lr1 1", s!"C canonical_states {Ac.nstates}", s!"C impl_states {P.A.nstates}",
                s!"C merged {if P.A.nstates < Ac.nstates then 1 else 0}",
                s!"C all_rules_productive {if prod then 1 else 0}"])
+
+/-- what follows the C01-style payload: the pager trace (absent in requests of harnesses built without
+the hook) -/
+def traceRest (args : List Nat) : Option (Grammar × List Nat) := do
+  let (G, rest) ← parseGrammar args
+  let (_, rest) ← parseAutomaton G rest
+  match rest with
+  | n :: rest =>
+    let (_, rest) ← C01.parseInputs n rest
+    some (G, rest.drop n)
+  | [] => none
+
+/-- the tie of the construction algorithm (`Model/PagerImpl.lean`), for every grammar (LR(1) or not) -/
+def pagerLines (args : List Nat) : List String :=
+  match traceRest args with
+  | none => []
+  | some (G, rest) =>
+    match analyses G with
+    | none => []
+    | some An => Pager.lines G (An.nullable.contains ·) (An.first.contains ·) rest
+
+def handle (args : List Nat) : String :=
+  "\n".intercalate (handleCert args :: pagerLines args)
 
 end GrmVerif.Drive.C02
